@@ -121,9 +121,9 @@ func (c *verifContainer) PreserveMemoryResources() bool {
 	return ok && v == "true"
 }
 func (c *verifContainer) MemoryTypes() (libmem.TypeMask, error) { return 0, nil }
-func (c *verifContainer) GetMemoryLimit() int64                  { return c.memLimit }
-func (c *verifContainer) GetCpusetCpus() string                  { return c.cpus }
-func (c *verifContainer) GetCpusetMems() string                  { return c.mems }
+func (c *verifContainer) GetMemoryLimit() int64                 { return c.memLimit }
+func (c *verifContainer) GetCpusetCpus() string                 { return c.cpus }
+func (c *verifContainer) GetCpusetMems() string                 { return c.mems }
 func (c *verifContainer) SetCpusetCpus(v string) {
 	c.cpusCalls++
 	// an empty cpuset.cpus in an NRI adjustment/update means "leave as is";
@@ -440,11 +440,11 @@ func verifConfig() (*cfgapi.Config, int) {
 
 // container kinds: how the balloon type of a new container is selected
 var verifKinds = []struct{ namespace, annotation string }{
-	{"default", ""},     // default type (no match)
-	{"default", "b"},    // type b by annotation
-	{"ns-a", ""},        // type a by namespace
-	{"kube-system", ""}, // reserved type by namespace
-	{"default", "a"},    // type a by annotation
+	{"default", ""},      // default type (no match)
+	{"default", "b"},     // type b by annotation
+	{"ns-a", ""},         // type a by namespace
+	{"kube-system", ""},  // reserved type by namespace
+	{"default", "a"},     // type a by annotation
 	{"kube-system", "b"}, // annotation beats the reserved namespace
 }
 
